@@ -32,8 +32,14 @@ BINDINGS: list = []
 def _body_wo_doc(fn):
     b = fn.body
     if b and isinstance(b[0], ast.Expr) and isinstance(b[0].value, ast.Constant) and isinstance(b[0].value.value, str):
-        return b[1:]
+        b = b[1:]
+    if any(isinstance(x, ast.Nonlocal) for x in b):
+        b = [x for x in b if not isinstance(x, ast.Nonlocal)]
     return b
+
+
+def _nonlocals(fn) -> set[str]:
+    return {nm for x in fn.body if isinstance(x, ast.Nonlocal) for nm in x.names}
 
 
 def _simple(e: ast.AST) -> bool:
@@ -67,9 +73,24 @@ def _eligible(fn: ast.FunctionDef) -> bool:
 
 
 def _eligible_closure(fn: ast.FunctionDef) -> bool:
-    """closures are inlined only in the expression form (a single `return e`): their free variables stay in scope"""
-    hb = _body_wo_doc(fn)
-    return _eligible(fn) and len(hb) == 1 and isinstance(hb[0], ast.Return) and hb[0].value is not None
+    """closures are inlined where their free variables stay in scope (inside their host function): any body that
+    the statement forms accept; `nonlocal` declarations at the top level of the closure are allowed - the names
+    they list are the host's, which is where the body goes"""
+    a = fn.args
+    if a.vararg or a.kwarg or a.posonlyargs or fn.decorator_list:
+        return False
+    for n in ast.walk(fn):
+        if n is fn:
+            continue
+        if isinstance(n, ast.Nonlocal):
+            if not any(n is st for st in fn.body):
+                return False
+            continue
+        if isinstance(n, (ast.FunctionDef, ast.AsyncFunctionDef, ast.ClassDef, ast.Yield, ast.YieldFrom, ast.Global, ast.Await)):
+            return False
+        if isinstance(n, ast.Call) and isinstance(n.func, ast.Name) and n.func.id == fn.name:
+            return False
+    return True
 
 
 def _stores(nodes) -> set[str]:
@@ -96,6 +117,49 @@ class _Subst(ast.NodeTransformer):
         shadow = {a.arg for a in n.args.args}
         inner = _Subst({k: v for k, v in self.m.items() if k not in shadow})
         n.body = inner.visit(n.body)
+        return n
+
+
+class _Fold(ast.NodeTransformer):
+    """constant folding of what a substituted constant argument decides: `a if True else b`, `not False`,
+    `if False: ..`, `True and x` - so that the inlined body reads like the code the helper was extracted from"""
+
+    def visit_UnaryOp(self, n):
+        self.generic_visit(n)
+        if isinstance(n.op, ast.Not) and isinstance(n.operand, ast.Constant) and isinstance(n.operand.value, (bool, type(None))):
+            return ast.copy_location(ast.Constant(value=not n.operand.value), n)
+        return n
+
+    def visit_BoolOp(self, n):
+        self.generic_visit(n)
+        vals = []
+        for v in n.values:
+            if isinstance(v, ast.Constant) and isinstance(v.value, bool):
+                if isinstance(n.op, ast.And):
+                    if v.value:
+                        continue
+                    return ast.copy_location(ast.Constant(value=False), n) if not vals else n
+                if not v.value:
+                    continue
+                return ast.copy_location(ast.Constant(value=True), n) if not vals else n
+            vals.append(v)
+        if not vals:
+            return ast.copy_location(ast.Constant(value=isinstance(n.op, ast.And)), n)
+        if len(vals) == 1:
+            return vals[0]
+        n.values = vals
+        return n
+
+    def visit_IfExp(self, n):
+        self.generic_visit(n)
+        if isinstance(n.test, ast.Constant) and isinstance(n.test.value, (bool, type(None))):
+            return n.body if n.test.value else n.orelse
+        return n
+
+    def visit_If(self, n):
+        self.generic_visit(n)
+        if isinstance(n.test, ast.Constant) and isinstance(n.test.value, (bool, type(None))):
+            return (n.body if n.test.value else n.orelse) or None
         return n
 
 
@@ -142,15 +206,72 @@ def _inlined_body(fn: ast.FunctionDef, call: ast.Call, live_after: set[str]):
         return None
     prelude, mapping = b
     body = copy.deepcopy(_body_wo_doc(fn))
-    locals_ = _stores(body) - set(mapping)
+    locals_ = _stores(body) - set(mapping) - _nonlocals(fn)
     for nm in sorted(locals_ & live_after):
         mapping[nm] = ast.Name(id=nm + "__h", ctx=ast.Load())
     sub = _Subst(mapping)
     body = [sub.visit(st) for st in body]
+    if any(isinstance(v, ast.Constant) for v in mapping.values()):
+        folded = []
+        for st in body:
+            r = _Fold().visit(st)
+            if r is None:
+                continue
+            folded.extend(r if isinstance(r, list) else [r])
+        body = folded or [ast.Pass()]
+    body = _drop_temporaries(body, locals_ - live_after)
     for st in prelude + body:
         ast.copy_location(st, call)
         ast.fix_missing_locations(st)
     return prelude + body
+
+
+def _drop_temporaries(body: list, helper_locals: set) -> list:
+    """A helper often names a value once (`first = sols[0]`, `status = Status.OPTIMAL`) where the code it was
+    extracted from wrote the expression in place.  Such a local - bound once at the top level of the inlined body to
+    a side-effect-free expression whose operands are not rebound afterwards, and dead after the body - is
+    substituted into its uses."""
+    changed = True
+    while changed:
+        changed = False
+        for i, st in enumerate(body):
+            if not (isinstance(st, ast.Assign) and len(st.targets) == 1 and isinstance(st.targets[0], ast.Name)):
+                continue
+            t = st.targets[0].id
+            if t not in helper_locals or not _simple(st.value):
+                continue
+            stores_all = [n for x in body for n in ast.walk(x) if isinstance(n, ast.Name) and isinstance(n.ctx, (ast.Store, ast.Del)) and n.id == t]
+            if len(stores_all) != 1:
+                continue
+            operands = {n.id for n in ast.walk(st.value) if isinstance(n, ast.Name)}
+            later = body[i + 1:]
+            if _stores(later) & operands:
+                continue
+            # a mutation of the operand through a method call between binding and use would change what an inlined
+            # expression reads: only straight reads are substituted into (no calls on the operand's root in between)
+            roots = set(operands)
+            risky = False
+            for x in later:
+                for n in ast.walk(x):
+                    if isinstance(n, ast.Call) and isinstance(n.func, ast.Attribute):
+                        b_ = n.func.value
+                        while isinstance(b_, (ast.Attribute, ast.Subscript)):
+                            b_ = b_.value
+                        if isinstance(b_, ast.Name) and b_.id in roots and n.func.attr in ("append", "extend", "insert", "pop", "remove", "clear", "sort", "reverse", "add", "discard", "update", "popleft", "appendleft"):
+                            risky = True
+                    if isinstance(n, (ast.Subscript, ast.Attribute)) and isinstance(n.ctx, (ast.Store, ast.Del)):
+                        b_ = n
+                        while isinstance(b_, (ast.Attribute, ast.Subscript)):
+                            b_ = b_.value
+                        if isinstance(b_, ast.Name) and b_.id in roots:
+                            risky = True
+            if risky:
+                continue
+            sub = _Subst({t: st.value})
+            body = body[:i] + [sub.visit(x) for x in later]
+            changed = True
+            break
+    return body
 
 
 def _returns(body) -> list[ast.Return]:
@@ -212,6 +333,8 @@ class _Inliner:
             call = st.value
         if call is not None and isinstance(call.func, ast.Name) and call.func.id in self.helpers:
             h = self.helpers[call.func.id]
+        elif call is not None and isinstance(call.func, ast.Attribute) and isinstance(call.func.value, ast.Name) and call.func.value.id == "self" and f"self.{call.func.attr}" in self.helpers:
+            h = self.helpers[f"self.{call.func.attr}"]
         if h is not None:
             hb = _body_wo_doc(h)
             rets = _returns(hb)
@@ -260,8 +383,9 @@ class _ExprInliner(ast.NodeTransformer):
 
     def visit_Call(self, n):
         self.generic_visit(n)
-        if isinstance(n.func, ast.Name) and n.func.id in self.h:
-            h = self.h[n.func.id]
+        key = n.func.id if isinstance(n.func, ast.Name) else (f"self.{n.func.attr}" if isinstance(n.func, ast.Attribute) and isinstance(n.func.value, ast.Name) and n.func.value.id == "self" else None)
+        if key is not None and key in self.h:
+            h = self.h[key]
             hb = _body_wo_doc(h)
             if len(hb) == 1 and isinstance(hb[0], ast.Return) and hb[0].value is not None and all(_simple(a) for a in n.args) and all(_simple(k.value) for k in n.keywords):
                 b = _bind(h, n)
@@ -294,7 +418,39 @@ def unextract(rel: str, tree: ast.Module, known: dict) -> list[str]:
             local_new = {x.name: x for x in fn.body if isinstance(x, ast.FunctionDef) and x.name not in b["closures"] and _eligible_closure(x)}
             if local_new:
                 hosts.append((fn, local_new))
+        # methods the baseline does not list, of classes it knows: `self.m(..)` inside the other methods of the class
+        class_hosts = []
+        for c in tree.body:
+            if not isinstance(c, ast.ClassDef):
+                continue
+            known_methods = [k for k in known if k.startswith(f"{rel}::{c.name}.")]
+            if not known_methods:
+                continue
+            new_m = {}
+            for x in c.body:
+                if isinstance(x, ast.FunctionDef) and f"{rel}::{c.name}.{x.name}" not in known and x.args.args and x.args.args[0].arg == "self" and not x.name.startswith("__"):
+                    y = copy.copy(x)
+                    y.args = copy.copy(x.args)
+                    y.args.args = x.args.args[1:]
+                    if len(x.args.defaults) > len(y.args.args):
+                        continue
+                    if _eligible(y):
+                        new_m[f"self.{x.name}"] = y
+            if new_m:
+                class_hosts.append((c, new_m))
         changed = 0
+        for c, new_m in class_hosts:
+            inl = _Inliner(new_m)
+            ex = _ExprInliner(new_m)
+            for x in c.body:
+                if isinstance(x, ast.FunctionDef) and f"self.{x.name}" not in new_m:
+                    for y in ast.walk(x):
+                        if isinstance(y, (ast.FunctionDef, ast.AsyncFunctionDef)):
+                            y.body = inl.block(y.body, [])
+                            y.body = [ex.visit(st) for st in y.body]
+            if inl.count or ex.count:
+                changed += inl.count + ex.count
+                done.extend(sorted(k.split(".", 1)[1] for k in new_m))
         # module-level helpers: into every function of the module (the helpers themselves included, for chains)
         if helpers:
             for n in ast.walk(tree):
@@ -312,10 +468,21 @@ def unextract(rel: str, tree: ast.Module, known: dict) -> list[str]:
         for fn, local_new in hosts:
             inl = _Inliner(local_new)
             ex = _ExprInliner(local_new)
+            carried = set().union(*(_nonlocals(h_) for h_ in local_new.values())) if local_new else set()
             for x in ast.walk(fn):
                 if isinstance(x, (ast.FunctionDef, ast.AsyncFunctionDef)) and x.name not in local_new:
+                    before = inl.count
                     x.body = inl.block(x.body, [])
                     x.body = [ex.visit(st) for st in x.body]
+                    if x is not fn and inl.count > before and carried:
+                        # the inlined body assigns variables of the host: the sibling closure has to declare them
+                        declared = {nm for st in x.body if isinstance(st, (ast.Nonlocal, ast.Global)) for nm in st.names}
+                        params_ = {a_.arg for a_ in x.args.args + x.args.kwonlyargs}
+                        assigned = {n_.id for n_ in ast.walk(x) if isinstance(n_, ast.Name) and isinstance(n_.ctx, (ast.Store, ast.Del))}
+                        need = sorted((carried & assigned) - declared - params_)
+                        if need:
+                            k = 1 if x.body and isinstance(x.body[0], ast.Expr) and isinstance(x.body[0].value, ast.Constant) and isinstance(x.body[0].value.value, str) else 0
+                            x.body.insert(k, ast.Nonlocal(names=need))
             if inl.count or ex.count:
                 changed += inl.count + ex.count
                 done.extend(sorted(local_new))
@@ -324,7 +491,7 @@ def unextract(rel: str, tree: ast.Module, known: dict) -> list[str]:
         ast.fix_missing_locations(tree)
     # helpers that are no longer called anywhere in the module are dropped (they would only be swept as dead code)
     if done:
-        called = {n.func.id for n in ast.walk(tree) if isinstance(n, ast.Call) and isinstance(n.func, ast.Name)} | {n.id for n in ast.walk(tree) if isinstance(n, ast.Name) and isinstance(n.ctx, ast.Load)}
+        called = {n.func.id for n in ast.walk(tree) if isinstance(n, ast.Call) and isinstance(n.func, ast.Name)} | {n.id for n in ast.walk(tree) if isinstance(n, ast.Name) and isinstance(n.ctx, ast.Load)} | {n.attr for n in ast.walk(tree) if isinstance(n, ast.Attribute)}
         for holder in [tree] + [x for x in ast.walk(tree) if isinstance(x, (ast.FunctionDef, ast.ClassDef))]:
             holder.body = [x for x in holder.body if not (isinstance(x, ast.FunctionDef) and x.name in done and x.name not in called)] or holder.body
     return sorted(set(done))
